@@ -210,6 +210,7 @@ package websocket
 
 //@ func (*Conn).advanceFrame
 //@ tags C03 C04 C05 C06 C07 C08
+//@ option weakb2i
 //@ let h := c.br.g_rd + c.readRemaining
 //@ let s := c.br.g_in
 //@ let inMsg := !c.readFinal
@@ -237,7 +238,7 @@ package websocket
 //@     c.g_ctlCount == old(c.g_ctlCount)+1 && c.g_ctlType == 8 && c.g_ctlCode == 1009)
 //@ ensures[C06.topbit] imp(c.br.g_rd >= h + 10 && !rfc_violates(s, h, c.isServer, inMsg, c.newDecompressionReader != nil) && rfc_lenTopBit(s, h), \
 //@     err == ErrReadLimit && c.br.g_rd == h + 10 && c.g_hcalls == old(c.g_hcalls))
-//@ ensures[C06.wrap] imp(c.br.g_rd >= h + rfc_hdrLen(s, h) && dataOK(s, h, c, inMsg) && len0 + rfc_payLen(s, h) > 9223372036854775807, \
+//@ ensures[C06.wrap] imp(c.br.g_rd >= h + rfc_hdrLen(s, h) && dataOK(s, h, c, inMsg) && newMlen(s, h, len0) > 9223372036854775807, \
 //@     err == ErrReadLimit && c.br.g_rd == h + rfc_hdrLen(s, h))
 //@ ensures[C05.eof] imp(err == io.EOF, (old(c.readRemaining) > 0 && c.br.g_rd < h) || c.g_hcalls == old(c.g_hcalls) + 1)
 //@ ensures[C08.dispatch] imp(c.br.g_rd >= h + rfc_hdrLen(s, h) + rfc_payLen(s, h) && !rfc_violates(s, h, c.isServer, inMsg, c.newDecompressionReader != nil) && \
